@@ -379,6 +379,7 @@ def judge(J, L, victim, label, replay, peak=None, named=None, after_ok=None):
              "the call did not complete within %d s (spin, or work far out of proportion to the bytes received)"
              % HANG_SECONDS, "hang")
         out["slow_field"] = (msgname, field)
+        J.hangs = getattr(J, "hangs", 0) + 1
         return out
     if v.state == "stall":
         pending = len(L.link.q[rx])
@@ -773,6 +774,9 @@ def handshake_sweep(ctx, J, scns, budget_cases):
         if ctx.out_of_time(0.97):
             ctx.count("handshake-sweep-cut-by-budget")
             break
+        if getattr(J, "hangs", 0) >= 8:
+            ctx.count("sweep-stopped-after-repeated-hangs")
+            break
         fld = (name.replace("handshake:", ""), short_label(d).split("/")[-1])
         if fld in slow and (d["op"] in ("grow", "repeat_item") or len(d.get("data", "")) > 2000):
             ctx.count("skipped-known-slow-field")
@@ -929,6 +933,18 @@ def run_raw_case(role, scn, data, eof, pre=None):
     return L, m.peak
 
 
+def oversized_oracle(ctx, J, cls, data, out, replay, role):
+    """RFC 5246 6.2.3 / RFC 8446 5.2: a record longer than 2^14 + 2048 is answered with record_overflow;
+    the property names oversized records explicitly"""
+    if not cls.startswith("oversized-") or len(data) < 5:
+        return
+    n = (data[3] << 8) | data[4]
+    if n > 16384 + 2048 and data[0] in (20, 21, 22, 23, 24) and out["cls"] != "local_alert:22":
+        J.report(("oversized-record", role), "c08:oversized-record-not-refused",
+                 "a record declaring %d bytes (limit 2^14+2048) was not answered with record_overflow: %s [victim=%s]"
+                 % (n, out["cls"], role), replay)
+
+
 def raw_sweep(ctx, J, hellos):
     from harness import lab
     rng = ctx.rng
@@ -944,12 +960,13 @@ def raw_sweep(ctx, J, hellos):
         if hello is None:
             continue
         for cls, data, eof in raw_inputs(rng, ctx.thorough(), hello):
-            if ctx.out_of_time(0.9):
+            if ctx.out_of_time(0.9) or getattr(J, "hangs", 0) >= 8:
                 return n
             L, peak = with_mem_confirm(ctx, role, lambda: run_raw_case(role, scn, data, eof))
             replay = {"stage": "raw", "scn": sname, "role": role, "data": data if len(data) <= 70000 else None,
                       "gen": cls, "eof": eof, "msg": "first-flight", "cls": cls}
             out = judge(J, L, role, "raw first flight %s" % cls, replay, peak=peak)
+            oversized_oracle(ctx, J, cls, data, out, replay, role)
             n += 1
             ctx.count("raw:" + cls.split("-")[0])
             ctx.count("outcome:" + out["cls"].split(":")[0])
@@ -1087,7 +1104,7 @@ def post_sweep(ctx, J):
             cases = [c for i, c in enumerate(cases) if c[0].startswith(("many", "key-update", "heartbeat", "injected", "new-session"))
                      or ctx.rng.random() < 0.5]
         for cls, payload, via in cases:
-            if ctx.out_of_time(0.95):
+            if ctx.out_of_time(0.95) or getattr(J, "hangs", 0) >= 8:
                 return n
             L, peak = with_mem_confirm(ctx, victim, lambda: run_post_case(scn, victim, cls, payload, via))
             if L is None:
@@ -1727,7 +1744,7 @@ def real_getmsg(cfg, d, items, session_closed_variant):
     obs = {}
     steps = 0
     try:
-        with Watchdog(20):
+        with Watchdog(6):
             while True:
                 r = next(gen)
                 steps += 1
@@ -1784,6 +1801,7 @@ def loop_correspondence(ctx, n):
     cases = [gen_loop_case(rng) for _ in range(n)]
     lines = [loop_line(*c) for c in cases]
     outs = lc.batch(lines) if lc is not None else [None] * len(lines)
+    spins = 0
     for (cfg, d, items), line, mo in zip(cases, lines, outs):
         variant = rng.random() < 0.5
         obs = real_getmsg(cfg, d, items, variant)
@@ -1791,6 +1809,11 @@ def loop_correspondence(ctx, n):
                  sample={"getMsg_inputs": line[:300], "model": mo, "impl": dict(obs)} if ctx.evaluations % 331 == 0 else None)
         # the no-spin / linear-work oracle on the real loop, from the property text
         work_bound = 2 * (len(items) + sum(len(i[2]) for i in items if i[0] == "r") + len(d["hs"]) + len(d["alert"]) + len(d["ccs"])) + 2
+        if obs["outcome"] == "spin":
+            spins += 1
+            if spins > 2:
+                ctx.count("loop-correspondence-stopped-after-repeated-spins")
+                break
         if obs["outcome"] == "spin" or obs["iters"] > work_bound:
             ctx.violation("c08:getMsg-loop-spins", "the _getMsg loop made %d passes over %d records without finishing (outcome %s)"
                           % (obs["iters"], len(items), obs["outcome"]), {"stage": "loop", "line": line})
